@@ -28,6 +28,7 @@ CONSTANTS
   MaxDepth = {maxdepth}
   Dv = {dv}
   Rich = {rich}
+  Three = {three}
 INVARIANTS {invs}
 CONSTRAINT Window
 CHECK_DEADLOCK FALSE
@@ -46,11 +47,12 @@ ARG_ALL = ["omit", "null", "str", "int", "float", "bool", "enum", "list", "obj",
 
 # (families, constants, families replayed without per-offset reader faults)
 QUICK_RUNS = [
-    dict(fams=["frag", "vars", "refl"], alllen=1, smalllen=1, maxtok=4, maxmut=0, muttok=4, rich="FALSE", argstates=ARG_QUICK, vdbulk=1, light=""),
+    dict(fams=["frag", "frag3", "dupkey", "vars", "refl"], alllen=1, smalllen=1, maxtok=4, maxmut=0, muttok=4, rich="FALSE", argstates=ARG_QUICK, vdbulk=1, light=""),
     dict(fams=["all"], alllen=2, smalllen=3, maxtok=4, maxmut=0, muttok=4, rich="FALSE", argstates=ARG_QUICK, vdbulk=1, light="all"),
     dict(fams=["deriv"], alllen=1, smalllen=1, maxtok=6, maxmut=1, muttok=5, rich="FALSE", argstates=ARG_QUICK, vdbulk=1, light="deriv"),
 ]
 THOROUGH_RUNS = [
+    dict(fams=["frag3", "dupkey"], alllen=1, smalllen=1, maxtok=4, maxmut=0, muttok=4, rich="FALSE", argstates=ARG_QUICK, vdbulk=1, light=""),
     dict(fams=["frag"], alllen=1, smalllen=1, maxtok=4, maxmut=0, muttok=4, rich="TRUE", argstates=ARG_ALL, vdbulk=1, light=""),
     dict(fams=["vars", "refl"], alllen=1, smalllen=1, maxtok=4, maxmut=0, muttok=4, rich="FALSE", argstates=ARG_ALL, vdbulk=1, light=""),
     dict(fams=["all"], alllen=3, smalllen=4, maxtok=4, maxmut=0, muttok=4, rich="FALSE", argstates=ARG_QUICK, vdbulk=1, light="all"),
@@ -87,16 +89,21 @@ def depth_model(ctx, devs):
     """ResolveDepth.tla: the nesting of request resolution as a state machine over every fragment document."""
     quick = ctx.tier == "quick"
     rich = "FALSE" if quick else "TRUE"
-    res = vlib.run_tlc(ctx, "ResolveDepth", DEPTH_CFG.format(maxdepth=2 if quick else 3, dv="{}", rich=rich,
+    res = vlib.run_tlc(ctx, "ResolveDepth", DEPTH_CFG.format(maxdepth=2 if quick else 3, dv="{}", rich=rich, three="FALSE",
                                                               invs="DepthBounded DivergesImpliesCycle"), timeout=3000)
     vlib.require_clean(res, "ResolveDepth (design)")
+    # three fragments: cycles behind the fragment the operation enters through
+    for dv, invs in (("{}", "DepthBounded DivergesImpliesCycle"), ('{"FragCycleUnbounded"}', "OverflowOnlyIfDiverges DivergesImpliesCycle")):
+        r3 = vlib.run_tlc(ctx, "ResolveDepth", DEPTH_CFG.format(maxdepth=1 if quick else 2, dv=dv, rich="FALSE", three="TRUE", invs=invs),
+                          timeout=3000, count_states=(dv == "{}"))
+        vlib.require_clean(r3, "ResolveDepth, three fragments, Dv = %s" % dv)
     # the code's algorithm (no cycle check): the model must reproduce the unbounded recursion, and only for Diverges(doc)
-    dev = vlib.run_tlc(ctx, "ResolveDepth", DEPTH_CFG.format(maxdepth=2, dv='{"FragCycleUnbounded"}', rich="FALSE",
+    dev = vlib.run_tlc(ctx, "ResolveDepth", DEPTH_CFG.format(maxdepth=2, dv='{"FragCycleUnbounded"}', rich="FALSE", three="FALSE",
                                                               invs="OverflowOnlyIfDiverges DivergesImpliesCycle"),
                        timeout=3000, count_states=False)
     vlib.require_clean(dev, "ResolveDepth (FragCycleUnbounded: overflow only for the documents Diverges names)")
     if not quick:
-        bad = vlib.run_tlc(ctx, "ResolveDepth", DEPTH_CFG.format(maxdepth=2, dv='{"FragCycleUnbounded"}', rich="FALSE",
+        bad = vlib.run_tlc(ctx, "ResolveDepth", DEPTH_CFG.format(maxdepth=2, dv='{"FragCycleUnbounded"}', rich="FALSE", three="FALSE",
                                                                   invs="DepthBounded"), timeout=3000, count_states=False)
         if bad.violated != "DepthBounded":
             raise vlib.MachineryError("ResolveDepth: the deviation FragCycleUnbounded does not violate DepthBounded (%s)" % bad.error)
